@@ -205,10 +205,10 @@ def sortStr (l : List String) : List String := l.mergeSort (fun x y => decide (x
 
 def spQuery (a b : AR.Arena) : List String → Option String
   | ["parts"] => some (encQR (fun (r : List String × List SPM.Part) => ";".intercalate (sortStr ((SPM.sides r.2).map (encSide r.1))))
-      (do let t ← AR.absRoot a; let all ← SPM.leafIndex t; let ps ← SPM.partitions t; pure (all, ps)))
+      (SPM.partitionsArena a))
   | ["partlens"] => some (encQR (fun (r : List String × List SPM.Part) =>
       ";".intercalate (sortStr (r.2.map (fun p => encSide r.1 p.side ++ "=" ++ encOptInt p.len))))
-      (do let t ← AR.absRoot a; let all ← SPM.leafIndex t; let ps ← SPM.partitions t; pure (all, ps)))
+      (SPM.partitionsArena a))
   | ["leafindex"] => some (encQR (fun l => ",".intercalate (l.map hexEnc)) (AR.absRoot a >>= SPM.leafIndex))
   | ["rf"] => some (encQR toString (do let s ← AR.absRoot a; let o ← AR.absRoot b; SPM.rf s o))
   | ["rfn"] => some (encQR (fun (p : Nat × Nat) => s!"{p.1} {p.2}") (do let s ← AR.absRoot a; let o ← AR.absRoot b; SPM.rfNorm s o))
@@ -231,6 +231,7 @@ def dispatch (st : DState) (fs : List String) : DState × String :=
   | ["ar.load2", s] => match decArena s with | some a => ({ st with ar2 := a }, "ok") | none => bad
   | ["ar.swap"] => ({ st with ar := st.ar2, ar2 := st.ar }, "ok")
   | "sp" :: q => match spQuery st.ar st.ar2 q with | some r => (st, r) | none => bad
+  | ["nop"] => (st, "ok")
   | ["ar.dump"] => (st, encArena st.ar)
   | ["ar.inv"] => (st, s!"{encBool (AR.checkInv st.ar)} {(AR.liveRoots st.ar).length}")
   | ["ar.add", n] => match decOptStr n with
